@@ -104,8 +104,6 @@ def verify(props=None, functions=None, timeout_s=10.0, repo=None, procs=None):
     repo = repo or os.environ.get("PYVC_REPO", "/repo")
     jobs = [(q, timeout_s, repo) for q in quals]
     procs = procs or min(16, max(1, len(jobs)))
-    if not jobs:
-        return []
     ctx = mp.get_context("fork")
     from pyvc.solve import discharge_text, check_sat_text
     with ctx.Pool(procs, maxtasksperchild=4) as pool:
@@ -122,6 +120,16 @@ def verify(props=None, functions=None, timeout_s=10.0, repo=None, procs=None):
         res[ri]["obligations"][oi] = o
     for (ri, ci), stt in zip(citems, couts):
         res[ri]["covers"][ci] = {"id": res[ri]["covers"][ci]["id"], "status": stt}
+    # structural (AST) obligations
+    from pyvc import structural
+    sres = structural.run(props, repo) if not functions else []
+    by_fn = {}
+    for o in sres:
+        by_fn.setdefault(o["function"], []).append(o)
+    for fnm, obls in by_fn.items():
+        res.append({"function": fnm, "obligations": obls, "covers": [], "error": None, "undecided_reason": None,
+                    "assumptions": ["structural obligations are facts about the source text (AST), not behavioural proofs"],
+                    "paths": 0, "file": None, "yield_sites": 0, "wall_s": 0.0, "source_hash": None})
     for r in res:
         exits = [c for c in r["covers"] if c["id"].endswith("/exit.cover")]
         r["covers"] = [c for c in r["covers"] if not c["id"].endswith("/exit.cover")]
